@@ -146,6 +146,67 @@ def run(chk, tier):
         chk.bad("R10.3", "resolver jump base = next instruction", "resolve() must compute locations[label] - curr_loc after advancing curr_loc past the jump, in both jump arms: %s" % subs, rb.file)
 
     # ---- R10.4
+    # ---- R10.6 resolve() emits exactly one instruction per non-label code point (label positions are counted over code points)
+    chk.rule("R10.6", "resolve(): in the emitting loop every Bytecode / Jmp / JmpCond code point appends exactly one instruction on every path and a Label appends none; the output is "
+                      "touched by nothing but those appends - so the positions counted for the labels are the positions of the emitted instructions")
+    qr = mirq.BodyQ(rb)
+    sws = qr.switches_on(F, "rscel::compiler::compiled_prog::preresolved::PreResolvedCodePoint")
+    # the emitting loop is the one whose arms construct ByteCode::Jmp
+    emit = []
+    for sblk, _pl, arms_, other_ in sws:
+        regs = {nm: qr.arm_region(sblk, tg) for nm, tg in arms_.items()}
+        if any(x[2] in ("Jmp", "JmpCond") and x[0] in set().union(*regs.values()) for x in qr.aggregates(adt_suffix="bytecode::ByteCode")):
+            emit.append((sblk, arms_, other_, regs))
+    if len(emit) != 1:
+        raise lib.MissingAnchor("the emitting loop of resolve() (switch on PreResolvedCodePoint that builds ByteCode::Jmp): found %d" % len(emit))
+    sblk, arms_, other_, regs = emit[0]
+    # the output local: first `&mut` argument of the push calls
+    def out_calls(region):
+        res = []
+        for i_, t_ in rb.calls():
+            if i_ not in region or not t_.get("args"):
+                continue
+            aty = (t_.get("atys") or [""])[0]
+            if aty.startswith("&mut") and re.search(r"CelByteCode|Vec<rscel::interp::types::bytecode::ByteCode", aty):
+                res.append((i_, lib.callee_of(t_)[1] or "?"))
+        return res
+    heads = set(rb.dominators().get(sblk, {sblk}))
+    all_arm_targets = dict(arms_)
+    if other_ is not None and not (rb.blocks[other_]["term"] or {}).get("k") == "unreachable":
+        all_arm_targets["<otherwise>"] = other_
+    for nm, tg in sorted(all_arm_targets.items()):
+        region = qr.arm_region(sblk, tg)
+        oc = out_calls(region)
+        pushes = [c_ for c_ in oc if re.search(r"::push$", c_[1])]
+        others = [c_ for c_ in oc if not re.search(r"::push$", c_[1])]
+        key = "resolve|%s" % nm
+        if others:
+            chk.bad("R10.6", key, "the %s arm of resolve() changes the output through %s: every code point must translate to exactly one appended instruction, "
+                                  "otherwise jumps computed from the code-point positions land on the wrong instruction" % (nm, sorted(set(lib.short(c_[1]) for c_ in others))), rb.file)
+            continue
+        if nm == "Label":
+            if pushes:
+                chk.bad("R10.6", key, "a Label appends an instruction", rb.file)
+            else:
+                chk.ok("R10.6", key, "appends nothing")
+            continue
+        # exactly one push on every path from the arm back to the loop head: blocking the push blocks must cut the arm off from its exit,
+        # and no push block may reach another push block inside the arm
+        pb = set(i_ for i_, _ in pushes)
+        exits = set()
+        for x_ in region:
+            for y_ in rb.succs(x_):
+                if y_ not in region and not rb.blocks[y_].get("cleanup"):
+                    exits.add(y_)
+        skip = qr.reach(tg, blocked=pb | heads)
+        leaks = [x_ for x_ in skip for y_ in rb.succs(x_) if y_ in heads]
+        twice = [a_ for a_ in pb for b_ in pb if a_ != b_ and b_ in qr.reach(rb.blocks[a_]["term"]["t"], blocked=heads)] if pb else []
+        if not pb or leaks or twice:
+            chk.bad("R10.6", key, "the %s arm of resolve() does not append exactly one instruction on every path (appends: %d, paths without an append: %s, paths with two: %s): "
+                                  "the label positions counted in the first loop then differ from the emitted instruction positions" % (nm, len(pb), bool(leaks), bool(twice)), rb.file)
+        else:
+            chk.ok("R10.6", key, "exactly one append on every path")
+    chk.floor("R10.6", "arms of the emitting loop", len(all_arm_targets), 4)
     allowed = re.compile(r"preresolved::PreResolvedByteCode::resolve$|_serde::Deserialize|as std::clone::Clone>::clone$")
     n = 0
     for bb_ in F.bodies.values():
